@@ -104,6 +104,9 @@ def kingHasMove (s : State) : Option Bool :=
   | Option.none => Option.none        -- `first_square().unwrap()` panics without a king
   | some k => some (bbAny (kingAttacks k &&& ~~~s.pieces.occ &&& ~~~(coloredAttacks s.pieces s.turn.opp)))
 
+/-- `eval.clamp(NEG_INF + 1, POS_INF - 1)` (since the repair of F10: a heuristic score never looks like a mate score) -/
+def clampHeuristic (e : Eval) : Eval := max (Ev.negInf + 1) (min (Ev.posInf - 1) e)
+
 /-- `Evaluator::evaluate(state, perspective, depth)`; `none` = panic -/
 def evaluate (s : State) (perspective : Color) (depth : Nat) : Option Eval :=
   match kingHasMove s with
@@ -117,8 +120,8 @@ def evaluate (s : State) (perspective : Color) (depth : Nat) : Option Eval :=
         if ms.isEmpty && s.isCheck then
           some (if s.turn == perspective then - Ev.mateInPly depth else Ev.mateInPly depth)
         else if ms.isEmpty then some 0
-        else some (evalHeuristic v perspective)
-    else some (evalHeuristic v perspective)
+        else some (clampHeuristic (evalHeuristic v perspective))
+    else some (clampHeuristic (evalHeuristic v perspective))
 
 /-- `Evaluator::estimate` -/
 def estimate (s : State) (mv : Move) : Eval :=
